@@ -31,6 +31,22 @@ CLAIMS = {
             "Coq theorems over the same configuration model and generated registry: a value that is not accepted (wrong type, out of range, dangling or ill-typed reference) leaves the whole state unchanged and yields a diagnostic; unknown options likewise; an accepted value changes exactly the named option; accepted numbers lie within the generated bounds of every bounded option; malformed quoting changes nothing; the nl_max guard is characterised over the generated list of options it compares. Tie: translator + correspondence on a malformed stream (values just outside both bounds of every bounded option, wrong types, bad references, quoting errors, long lines, non-ASCII, garbage text) with diagnostics compared by kind/line/option; direct oracles on the binary: no effect on --update-config output or formatted bytes, a diagnostic naming file/line/option, no crash or hang, include cycles, nl_max refusals.",
             "Trusted: as C15. Diagnostics are compared by kind, line and option, not by message text. The strchr(\"-\", 0) read past an empty value is modelled as 'bad value' (no observable difference).",
             "DESIGN.md section 6 C16"),
+    "C17": ("proof",
+            "Coq theorems over a model of the output stage (add_char with space buffering and the tab-after-space guard, output_to_column, the chunk loop of output_text incl. newline/backslash-newline/ignored/ordinary chunks and the allow_tabs logic): with tabs disabled the writer emits no tab for EVERY chunk list with tab-free texts; a chunk that starts a line is preceded by exactly column-1 spaces and its last character is the last thing written (padding is only buffered, so no blank can trail it). The chunk-text invariant (no leading/trailing blanks) and the passes computing columns are contracts. Tie: the extracted model reproduces code point for code point what the real writer emitted for the dumped chunk list (comment writers as recorded oracle segments) on a corpus slice and generated programs with randomised whitespace x tab/indent/align options; direct oracle on the real output with every character attributed to its chunk (trailing blanks, tabs/space-before-tab in indentation incl. preprocessor lines, end-of-file policy).",
+            "Trusted: Coq kernel, extraction, driver glue, hooks H1 + write_char recorder. Comment writers and the middle passes are not modelled (oracle segments / contracts evaluated on explored runs). The indent_with_tabs=1/2 'no space before tab' clause is decided by the oracle and the correspondence, not by a theorem.",
+            "DESIGN.md section 6 C17"),
+    "C08": ("proof",
+            "Coq theorems over the output-stage model: for EVERY chunk list and option set no character written through the single writer is a bare CR or LF (every line break is the NL symbol, realised as exactly the configured sequence), and the symbol stream is independent of the newline setting (crlf output = lf output with breaks replaced). The input side (terminator census, CR/CRLF parsing) and the middle passes are validated end-to-end, not proved. Tie: Render correspondence on every run + oracles on real runs over LF/CRLF/CR/mixed re-encodings x newlines in {lf,crlf,cr,auto}: format(convert x) = format x, crlf = subst(lf), auto picks the input's terminator, no stray CR/LF outside literals/comments.",
+            "Trusted: as C17. The lexer side of the commutation claim is a validated hypothesis (oracle on explored inputs).",
+            "DESIGN.md section 6 C08"),
+    "C20": ("proof",
+            "Coq theorem over the output-stage model: a NEWLINE chunk is written as exactly nl_count line breaks (no blank-line indentation), so the runs in the output are the nl_count fields of the final chunk list. The passes computing those counts are not modelled: the bound is the contract K_nlmax evaluated on the dumped final chunk list of every explored run, together with a byte-level run scan, file start/end counts against nl_start/end_of_file(+_min) and brace-adjacent blanks. Tie: Render correspondence + oracles on generated programs with 0..6 injected blank lines x nl_max 0..6 x start/end options x eat_blanks x count options, plus a corpus slice.",
+            "Trusted: as C17. The newline passes (do_blank_lines etc.) are covered by contract + oracle only.",
+            "DESIGN.md section 6 C20"),
+    "C18": ("proof",
+            "Coq theorem over the output-stage model: the first chunk of a line is preceded by exactly column-1 columns of whitespace. The indent pass computing the columns is not modelled: 'statement-start column = nesting depth x indent_columns' is the contract K_indent, evaluated on every explored run against the generator's known depth; independence from the original indentation is validated by formatting two random layouts of each program. Tie: Render correspondence + oracle on generated block-structured programs (depth <= 6, per-line random indentation with tabs) x indent_columns x indent_with_tabs x output_tab_size.",
+            "Trusted: as C17. The indent pass is covered by contract + oracle only; default brace style.",
+            "DESIGN.md section 6 C18"),
 }
 
 
